@@ -32,7 +32,7 @@ def strategy_(draw, tier):
         prog = draw(gen.scalar_with_consumers(early_virtual=early, linear=linear))
     elif kind == 1:
         # repeated / operand-swapped sub-expressions: what CSE may and may not merge, judged absolutely
-        prog = draw(gen.cse_program(early_virtual=early))
+        prog = draw(gen.cse_program(early_virtual=early, leak_free=linear))
     else:
         prog = draw(gen.scalar_program(early_virtual=early, linear=linear))
     names = list(lang.input_decls(prog))
@@ -68,12 +68,14 @@ def run_case(case):
     ncomb = circ.n_combinators()
     ref_seen: dict[str, set] = {}
     checked = 0
+    skipped = 0
     sample_obs = []
     for val in case["vals"]:
         try:
             env = lang.Interp(prog, inputs=val).run()
         except Unmodelled:
-            return {"discard": "unmodelled"}
+            skipped += 1  # this valuation leaves the modelled ALU domain (e.g. a negative exponent); the others are judged
+            continue
         try:
             ticks, missing = common.run_valuation(prog, circ, val, inputs_map)
         except Unmodelled:
@@ -96,6 +98,10 @@ def run_case(case):
             sample_obs = [{"valuation": val, "reference": {n_: repr(env.get(n_)) for n_ in outputs}}]
         if unobs:
             classes.add("unobservable-output")
+    if skipped == len(case["vals"]):
+        return {"discard": "unmodelled"}
+    if skipped:
+        classes.add("some-valuations-unmodelled")
     varies = any(len(s) > 1 for s in ref_seen.values())
     classes.add(f"combinators:{min(ncomb, 10)}")
     classes.add("optimize" if case.get("optimize", True) else "no-optimize")
